@@ -34,8 +34,8 @@ CONTEXTS = {
 
 def tree_family(leaves, tier):
     if tier == "quick":
-        ls = leaves[:2]
-        t = trees.trees(ls, 2, [("tuple", "list", "dict", "nt", "node"), ("tuple",)], 2)
+        ls = leaves[:3]
+        t = trees.trees(ls, 2, [("tuple", "list", "dict", "nt", "node"), ("tuple", "dict")], 2)
         t += trees.spine(ls[:1], 3, ("tuple", "dict"))
     else:
         t = trees.trees(leaves[:3], 2, [("tuple", "list", "dict", "nt", "node"), ("tuple", "list", "dict", "nt", "node")], 2)
@@ -145,7 +145,7 @@ def run(ctx):
         distinct_nontrivial=stats["nontrivial"],
         exhaustive=True,
         bounds="all trees of depth<=2 (arity<=2) over tuple/list/dict(reversed insertion order)/None/empty/namedtuple/registered node + spines of depth 3 (4 in thorough); "
-        "quick restricts the outer level to tuples and 2 leaves per leaf type",
+        "quick restricts the outer level to tuples and dicts",
     )
     return Result(level="model_checking", coverage=cov, violations=viols, assumptions=["reference flatten/matcher vf/refs/pytrees.py, vf/refs/leaftypes.py", "typeguard semantics of int/str/tuple/Union/Optional as read in the vendored copy"])
 
